@@ -70,4 +70,13 @@ CHECKS = {
         note=COMMON_NOTE + " The 'within rounding error' clause is decided only on exactly representable data.",
         technique="TLA+ operator semantics + TLC BFS case enumeration, replayed into operator API and Model.Run; defect model for the known finding",
         design_ref="DESIGN.md section 6 (C04)"),
+    "C09": dict(
+        text="Bounded-exhaustive: TLC enumerates (shape, axis/axes, keepdims) for ArgMax/ReduceMax/ReduceMin with tie patterns and computes "
+             "first-occurrence indices / extrema and result shapes from spec/OpReduce.tla; Softmax and LogSoftmax are decided exactly in "
+             "the saturation regime (slices of multiples of 1000 at per-slice magnitudes, +-MaxFloat) along every axis, which fixes axis "
+             "selection, per-slice independence and finiteness; invalid axes must give errors. Values of Softmax on ordinary inputs are "
+             "not recomputed (no reals in TLA+).",
+        note=COMMON_NOTE + " ArgMax on NaN is not generated (ONNX silent).",
+        technique="TLA+ operator semantics + TLC BFS case enumeration, replayed into operator API and Model.Run; defect model for the known finding",
+        design_ref="DESIGN.md section 6 (C09)"),
 }
